@@ -181,8 +181,17 @@ func c14GenOut(r *Rng, proto, mode string, q *c14Req, first bool) string {
 	_, known := c14Known[q.method]
 	big := r.Pick(0, 0, 40, 300, 5000, 20000)
 	where := "none"
+	pick := r.Intn(4)
+	if mode == "bounded" && (q.method == "ping" || q.method == "blob") && strings.HasPrefix(q.args, "ok") && r.Chance(70) {
+		// a REPLY big enough that a limit can lie between it and the RESPONSE_TOO_LARGE exception
+		big = r.Pick(300, 1000, 5000, 20000)
+		pick = r.Pick(1, 2, 2)
+		if q.method == "blob" {
+			pick = 2
+		}
+	}
 	if big > 0 {
-		switch r.Intn(4) {
+		switch pick {
 		case 0:
 			h["_cid"] = strings.Repeat("c", big)
 			where = "first"
@@ -224,7 +233,7 @@ func c14GenOut(r *Rng, proto, mode string, q *c14Req, first bool) string {
 		return "out:write-fails"
 	}
 	// bounded: the buffer holds a 4-byte frame-size placeholder, then the reply
-	limit := 4 + size + r.Pick(-1, -1, 0, 0, 1, -size/2, -size+1, 100, -7)
+	limit := 4 + size + r.Pick(-1, -1, -1, 0, 0, 1, -size/2, -size/3, -size+1, 100, -7, -2)
 	if known {
 		resp := map[string]string{"_opid": h["_opid"]}
 		if h["_cid"] != "" {
